@@ -22,6 +22,13 @@ func main() {
 	if p, v := hlib.Recover(func() { corpusCases(s) }); p {
 		s.Fail(s.NextID(), fmt.Sprintf("the library panicked in a corpus case: %v", v), map[string]interface{}{"family": "corpus"}, "")
 	}
+	sweepN := 2600
+	if cfg.Tier == "thorough" {
+		sweepN = 9000
+	}
+	if p, v := hlib.Recover(func() { observerSweep(s, sweepN) }); p {
+		s.Fail(s.NextID(), fmt.Sprintf("the library panicked in the observer sweep: %v", v), map[string]interface{}{"family": "observer sweep"}, "")
+	}
 	for i := 0; i < cfg.N; i++ {
 		cr := r.Fork()
 		// a panic anywhere while a case is built (derivation steps, observations) is a panic of the library on
